@@ -1,8 +1,8 @@
 // ---- C08 (key store part): spec functions written from the statement ------------------------------------------------
 use crate::key_keeper::key::Key;
 
-/// what serde_json::from_str::<Key> makes of a text (None: not a key document). Uninterpreted.
-pub uninterp spec fn parse_key(text: Seq<char>) -> Option<Key>;
+/// what serde_json::from_str::<Key> makes of a text (None: not a key document)
+pub open spec fn parse_key(text: Seq<char>) -> Option<Key> { parse_json::<Key>(text) }
 /// "the OS refuses to read this (existing, complete) file": permission / device errors. Uninterpreted; the "found after
 /// restart" clauses are stated for names the OS lets the agent read.
 pub uninterp spec fn io_read_fault(p: PathId) -> bool;
@@ -57,4 +57,30 @@ pub proof fn lemma_other_writes_keep_the_key(fs0: Fs, fs1: Fs, written: PathId, 
     ensures stored_complete(fs1, dir, k),  // @C08.restart.stored_key_survives_other_writes
 {
     lemma_key_path_not_tmp(dir, k.guid@);
+}
+
+/// key-store naming invariant: the file <g>.key holds a key whose guid is g (fetch_local_key itself does not compare the two;
+/// the poll slice's "the key is the one the host names" clause is stated under this invariant)
+pub open spec fn names_agree(fs: Fs, dir: PathId) -> bool {
+    forall|g: Seq<char>, k: Key| #[trigger] reads_as(fs, key_path(dir, g), k) ==> k.guid@ == g
+}
+/// store_local_key -- the only writer of *.key names -- preserves it, provided distinct guids give distinct file names
+/// (true for guids without '.', '/' : set_extension would otherwise replace the part after the last dot)
+pub proof fn lemma_store_keeps_names_agree(fs0: Fs, fs1: Fs, dir: PathId, k: Key)
+    requires
+        names_agree(fs0, dir), stored_complete(fs1, dir, k),
+        forall|q: PathId| q != key_path(dir, k.guid@) && !is_tmp(q) ==> #[trigger] fs1.state(q) == fs0.state(q),
+        forall|g: Seq<char>| g != k.guid@ ==> #[trigger] key_path(dir, g) != key_path(dir, k.guid@),
+    ensures names_agree(fs1, dir),  // @C08.store.naming_invariant_preserved
+{
+    axiom_key_json_round_trip(k);
+    assert forall|g: Seq<char>, k2: Key| #[trigger] reads_as(fs1, key_path(dir, g), k2) implies k2.guid@ == g by {
+        if g == k.guid@ {
+            assert(k2 == k);
+        } else {
+            lemma_key_path_not_tmp(dir, g);
+            assert(fs1.state(key_path(dir, g)) == fs0.state(key_path(dir, g)));
+            assert(reads_as(fs0, key_path(dir, g), k2));
+        }
+    }
 }
